@@ -119,6 +119,12 @@ impl EqTrue for Cond {
 
 /// ClosePosition under a symbolic limit and a partial-close fraction < 100%
 fn close_in_band(side: Side, drift: bool, seed: u64) -> impl Fn() {
+    close_in_band_l(side, drift, seed, false)
+}
+
+/// `sym_lim`: ClosePosition carries a symbolic quote limit (seeded where it is satisfied: the
+/// whole-or-fraction decision must not depend on it)
+fn close_in_band_l(side: Side, drift: bool, seed: u64, sym_lim: bool) -> impl Fn() {
     move || {
         let mut cfg = Cfg::base(false, 9);
         let d = cfg.d();
@@ -161,8 +167,9 @@ fn close_in_band(side: Side, drift: bool, seed: u64) -> impl Fn() {
             Ok(fq) => r.w.input_amount(0, if side == Side::Buy { Direction::RemoveFromAmm } else { Direction::AddToAmm }, *fq).ok(),
             Err(_) => None,
         };
-        let rec = r.step(Op::Close { who: ALICE, limit: Uint128::zero() });
-        let what = format!("close side={:?} drift={}", side, drift);
+        let lim = if sym_lim { var("qlim", 0, symrt::VAR_MAX, if side == Side::Buy { 1 } else { 1_000_000 * d }) } else { Uint128::zero() };
+        let rec = r.step(Op::Close { who: ALICE, limit: lim });
+        let what = format!("close side={:?} drift={}{}", side, drift, if sym_lim { " with-limit" } else { "" });
         if !rec.tx.ok {
             return;
         }
@@ -205,6 +212,7 @@ pub fn scenarios(seed: u64) -> Vec<Scenario> {
             v.push(sc("C15", Tier::Quick, &format!("c15.open.after-close-left-band.{}.{}", sn, an), "a whole close of a seeded position under a symbolic limit leaves the band; a later open in the same block (symbolic size, either side) must be rejected", 400, 120, open_after_close_left_band(side.clone(), aside, seed)));
         }
         v.push(sc("C15", Tier::Quick, &format!("c15.close.{}", sn), "position size, fluctuation limit symbolic; partial-close fraction 25%; whole close iff the price after a whole close (vAMM quote) stays inside the band", 500, 150, close_in_band(side.clone(), false, seed)));
+        v.push(sc("C15", Tier::Quick, &format!("c15.close.{}.lim", sn), "as c15.close with a symbolic quote limit on the ClosePosition", 800, 150, close_in_band_l(side.clone(), false, seed, true)));
         v.push(sc("C15", Tier::Quick, &format!("c15.close.afterdrift.{}", sn), "as c15.close after another trader moved the price (toward the close's own direction) inside the band in the same block", 800, 150, close_in_band(side.clone(), true, seed)));
     }
     v
